@@ -143,20 +143,20 @@ theorem quiescent_iff (s : σ) (pend : Pend P) : quiescent sem s pend = true ↔
 
 /-- **Soundness of the search.** -/
 theorem search_sound (q : Bool) : ∀ (fuel : Nat) (m : Memo K) (s : σ) (pend : Pend P) (evs : List (Event Op Out))
-    (sf : σ) (m' : Memo K), NodupKeys pend → search sem q fuel m s pend evs = (some sf, m') →
-    ∃ pf, Lin sem s pend evs sf pf ∧ (q = true → Quiescent sem sf pf) := by
+    (sf : σ) (pf : Pend P) (m' : Memo K), NodupKeys pend → search sem q fuel m s pend evs = (some (sf, pf), m') →
+    Lin sem s pend evs sf pf ∧ (q = true → Quiescent sem sf pf) := by
   intro fuel
   induction fuel with
-  | zero => intro m s pend evs sf m' _ h; simp [search] at h
+  | zero => intro m s pend evs sf pf m' _ h; simp [search] at h
   | succ fuel ih =>
-    intro m s pend evs sf m' hn h
+    intro m s pend evs sf pf m' hn h
     cases evs with
     | nil =>
       simp only [search] at h
       split at h
       · rename_i hq
         cases h
-        refine ⟨pend, Lin.nil _ _, fun hq' => ?_⟩
+        refine ⟨Lin.nil _ _, fun hq' => ?_⟩
         rw [hq'] at hq
         simpa [quiescent_iff] using hq
       · split at h
@@ -166,8 +166,8 @@ theorem search_sound (q : Bool) : ∀ (fuel : Nat) (m : Memo K) (s : σ) (pend :
             cases h
             obtain ⟨c, hc, m0, m1', hs⟩ := firstSomeM_some hf
             obtain ⟨pu, hpu, hmic⟩ := mem_candidates sem hc
-            obtain ⟨pf, hl, hq⟩ := ih _ _ _ _ _ _ (hn.setP _ _) hs
-            exact ⟨pf, Lin.step (lookup_of_mem hn hpu) hmic hl, hq⟩
+            obtain ⟨hl, hq⟩ := ih _ _ _ _ _ _ _ (hn.setP _ _) hs
+            exact ⟨Lin.step (lookup_of_mem hn hpu) hmic hl, hq⟩
           · cases h
     | cons e rest =>
       cases e with
@@ -176,8 +176,8 @@ theorem search_sound (q : Bool) : ∀ (fuel : Nat) (m : Memo K) (s : σ) (pend :
         split at h
         · cases h
         · rename_i hl
-          obtain ⟨pf, hlin, hq⟩ := ih _ _ _ _ _ _ (hn.cons hl _) h
-          exact ⟨pf, Lin.call hl hlin, hq⟩
+          obtain ⟨hlin, hq⟩ := ih _ _ _ _ _ _ _ (hn.cons hl _) h
+          exact ⟨Lin.call hl hlin, hq⟩
       | ret t out =>
         simp only [search] at h
         split at h
@@ -189,8 +189,8 @@ theorem search_sound (q : Bool) : ∀ (fuel : Nat) (m : Memo K) (s : σ) (pend :
             · rename_i heq
               have : o = out := by simpa using heq
               subst this
-              obtain ⟨pf, hlin, hq⟩ := ih _ _ _ _ _ _ (hn.erase _) h
-              exact ⟨pf, Lin.ret hp ho hlin, hq⟩
+              obtain ⟨hlin, hq⟩ := ih _ _ _ _ _ _ _ (hn.erase _) h
+              exact ⟨Lin.ret hp ho hlin, hq⟩
             · cases h
           · split at h
             · cases h
@@ -200,8 +200,8 @@ theorem search_sound (q : Bool) : ∀ (fuel : Nat) (m : Memo K) (s : σ) (pend :
                 obtain ⟨c, hc, m0, m1', hs⟩ := firstSomeM_some hf
                 obtain ⟨pu, hpu, hmic⟩ := mem_candidates sem hc
                 split at hs
-                · obtain ⟨pf, hl, hq⟩ := ih _ _ _ _ _ _ (hn.setP _ _) hs
-                  exact ⟨pf, Lin.step (lookup_of_mem hn hpu) hmic hl, hq⟩
+                · obtain ⟨hl, hq⟩ := ih _ _ _ _ _ _ _ (hn.setP _ _) hs
+                  exact ⟨Lin.step (lookup_of_mem hn hpu) hmic hl, hq⟩
                 · cases hs
               · cases h
 
